@@ -509,7 +509,7 @@ static int cmd_one (const Args &a)
 {	const Profile *prof = find_profile (a.pos.size () ? a.pos [0] : "") ;
 	if (!prof) return 2 ;
 	J plan ;
-	if (a.kv.count ("plan")) { if (!J::load (a.get ("plan"), plan)) return 2 ; if (plan.has ("plan")) plan = plan.at ("plan") ; }
+	if (a.kv.count ("plan")) { if (!J::load (a.get ("plan"), plan)) return 2 ; if (plan.has ("plan")) { J inner = plan.at ("plan") ; plan = inner ; } }
 	else { g_os = new SimOS ; plan = prof->gen ((uint64_t) a.geti ("seed", 1), (uint64_t) a.geti ("idx", 0)) ; }
 	J rep = run_plan_report (*prof, plan) ;
 	if (a.kv.count ("show-plan")) printf ("%s\n", plan.dump ().c_str ()) ;
@@ -677,7 +677,7 @@ static int cmd_gate (const Args &a)
 static int cmd_exec (const Args &a)
 {	J plan ;
 	if (!J::load (a.get ("plan"), plan)) return 2 ;
-	if (plan.has ("plan")) plan = plan.at ("plan") ;
+	if (plan.has ("plan")) { J inner = plan.at ("plan") ; plan = inner ; }
 	g_os = new SimOS ;
 	Result r = execute (plan) ;
 	for (size_t t = 0 ; t < r.transcript.size () ; t++)
